@@ -125,7 +125,7 @@ def run(ctx):
     ctx.assumptions = ["regex functions, hashes, base64, latin1, printf verbs: oracle comparison only (no Coq model): partial",
                        "full Unicode case mapping is outside the model"]
     forbidden_gate(ctx, ["Base", "C15"])
-    ok, why = check_props(ctx, "C15/Props.v", ["C15/Harness.vo", "C15/Proofs.vo", "C15/Utf8Proofs.vo"])
+    ok, why = check_props(ctx, "C15/Props.v", ["C15/Harness.vo", "C15/Proofs.vo", "C15/Utf8Proofs.vo", "C01/ProofsJson.vo"])
     rng = ctx.rng
     terms, meta, oracle_bad = [], [], []
 
@@ -375,6 +375,9 @@ def run(ctx):
                     bad("verb-equals-function-" + nm.split()[0], input=[x.decode("latin1") for x in row], observed=v, expected=f)
         ctx.dist("verb_rows", len(V) * len(names))
 
+    with ctx.timed("impl"):
+        regex_sequence_cases(ctx, bad)
+        json_cases(ctx, case, bad)
     for i in (0, len(meta) // 3, len(meta) // 2, len(meta) - 1):
         ctx.sample(meta[i])
     if not ok:
@@ -405,6 +408,163 @@ def run(ctx):
     for b in oracle_bad:
         hist.setdefault(b["class"], []).append({k: b[k] for k in ("input", "observed", "expected") if k in b})
     ctx.cov["oracle_disagreement_classes"] = {k: {"count": len(v), "examples": v[:6]} for k, v in hist.items()}
+
+
+# ---------------------------------------------------------------- regex state across calls in ONE process
+def py_regex_ref(fn, pat, ci, text, rep="<\\1>"):
+    flags = re.I if ci else 0
+    cre = re.compile(pat, flags)
+    m = cre.search(text)
+    if fn == "sub":
+        return cre.sub(lambda mm: mm.expand(rep.replace("\\1", "\\g<1>")), text, count=1)
+    if fn == "gsub":
+        return cre.sub(lambda mm: mm.expand(rep.replace("\\1", "\\g<1>")), text)
+    if fn == "regextract_or_else":
+        return m.group(0) if m else "<none>"
+    if fn == "matched":
+        return "true" if m else "false"
+    if fn == "capture":
+        return ("yes:" + m.group(1)) if m else "no"
+    raise ValueError(fn)
+
+
+def dsl_regex(fn, lit, text):
+    if fn == "sub":
+        return 'print sub("%s", %s, "<\\1>");' % (text, lit)
+    if fn == "gsub":
+        return 'print gsub("%s", %s, "<\\1>");' % (text, lit)
+    if fn == "regextract_or_else":
+        return 'print regextract_or_else("%s", %s, "<none>");' % (text, lit)
+    if fn == "matched":
+        return 'print strmatchx("%s", %s)["matched"];' % (text, lit)
+    if fn == "capture":
+        return 'if ("%s" =~ %s) {print "yes:\\1"} else {print "no"}' % (text, lit)
+    raise ValueError(fn)
+
+
+SEQ_PATTERNS = ["a(b)c", "(ab+)c", "x([a-c])", "(a|b)b", "^(a)b", "b(c)$", "(c)a*b"]
+SEQ_FUNCS = ["sub", "gsub", "regextract_or_else", "matched", "capture"]
+
+
+def regex_sequence_cases(ctx, bad):
+    """the same pattern text used case-sensitively ("p") and case-insensitively ("p"i) within one mlr process, both
+    orders, across functions, from DSL literals, from field values, and in verb then-chains; reference: python re"""
+    rng = ctx.rng
+    texts = ["xABCy abc Abc", "ABBC abbc", "xB xb XA", "AB ab Bb bB", "ab AB", "abc ABC", "CAAB cab cb CB"]
+    # (1) DSL literals
+    nprog = 0
+    for pat, text in zip(SEQ_PATTERNS, texts):
+        seqs = [[(f, False), (f, True)] for f in SEQ_FUNCS] + [[(f, True), (f, False)] for f in SEQ_FUNCS]
+        seqs += [[(rng.choice(SEQ_FUNCS), rng.random() < 0.5) for _ in range(6)] for _ in range(2 if ctx.tier == "quick" else 10)]
+        # all sequences of one pattern are separate processes; each sequence is ONE process
+        if ctx.tier == "quick":
+            seqs = rng.sample(seqs[:10], 3) + seqs[10:]
+        for steps in seqs:
+            # a successful =~ makes "\\1" in LATER string literals interpolate its captures (documented), so the
+            # =~ steps go last: they still run after, and in both orders relative to, the other uses of the pattern
+            steps = [x for x in steps if x[0] != "capture"] + [x for x in steps if x[0] == "capture"]
+            prog = "end{" + " ".join(dsl_regex(f, '"%s"%s' % (pat, "i" if ci else ""), text) for f, ci in steps) + "}"
+            st, out, err = mlr_run(ctx, ["-n", "put", prog], timeout=60)
+            got = out.decode("utf-8", "replace").split("\n")[:-1]
+            want = [py_regex_ref(f, pat, ci, text) for f, ci in steps]
+            ctx.count(("regex-seq", pat, tuple(steps))); nprog += 1
+            if st != 0 or got != want:
+                bad("regex-state-across-calls", input={"pattern": pat, "text": text, "steps": [(f, "i" if ci else "") for f, ci in steps]}, observed=got or err.decode("latin1")[-300:], expected=want,
+                    how="mlr -n put '%s'" % prog)
+    # (2) patterns from field values, many patterns, both orders, one process
+    rows, exp = [], []
+    for k in range(40 if ctx.tier == "quick" else 600):
+        pat = gen_regex(rng)
+        if "(" not in pat:
+            pat = "(" + pat.strip("^$") + ")"
+        text = "".join(rng.choice("abcABC ") for _ in range(rng.randint(3, 10)))
+        order = [False, True] if k % 2 == 0 else [True, False]
+        for ci in order + [order[0]]:
+            form = ('"%s"i' % pat) if ci else rng.choice([pat, '"%s"' % pat])
+            rows.append((b"r", text.encode(), form.encode()))
+            exp.append((pat, ci, text))
+    ctx.dist("regex_sequence_data_rows", len(rows))
+    res = mlr_rows(ctx, ["id", "s", "x"], rows, P(['sub($s,$x,"<\\1>")', 'gsub($s,$x,"<\\1>")', 'regextract_or_else($s,$x,"<none>")', 'strmatchx($s,$x)["matched"]']), ["sub", "gsub", "rex", "m"], args=["-S"])
+    for (pat, ci, text), (_, _, form), o in zip(exp, rows, res):
+        ctx.count(("regex-seq-data", pat, ci, text))
+        try:
+            want = [py_regex_ref(f, pat, ci, text) for f in ("sub", "gsub", "regextract_or_else", "matched")]
+        except (re.error, IndexError):
+            continue
+        got = [o["sub"], o["gsub"], o["rex"], o["m"]]
+        if got != want:
+            bad("regex-state-across-calls", input={"pattern_as_given": form.decode(), "text": text, "note": "same pattern text is used with and without the i suffix in neighbouring records of one process"},
+                observed=got, expected=want)
+    # (3) verbs in then-chains
+    for pat, text in zip(SEQ_PATTERNS, texts):
+        for first_ci in (False, True):
+            lit = lambda ci: ('"%s"i' % pat) if ci else pat
+            chain = ["sub", "-f", "a", lit(first_ci), "<\\1>", "then", "gsub", "-f", "b", lit(not first_ci), "<\\1>", "then", "sub", "-f", "c", lit(not first_ci), "<\\1>",
+                     "then", "gsub", "-f", "d", lit(first_ci), "<\\1>"]
+            rows = [(text.encode(),) * 4]
+            res = mlr_rows(ctx, ["a", "b", "c", "d"], rows, None, None, verb=chain)[0]
+            want = {"a": py_regex_ref("sub", pat, first_ci, text), "b": py_regex_ref("gsub", pat, not first_ci, text),
+                    "c": py_regex_ref("sub", pat, not first_ci, text), "d": py_regex_ref("gsub", pat, first_ci, text)}
+            ctx.count(("regex-seq-verbs", pat, first_ci))
+            if {k: res.get(k) for k in "abcd"} != want:
+                bad("regex-state-across-calls", input={"verb_chain": chain, "text": text}, observed=res, expected=want, how="echo 'a=..,b=..,c=..,d=..' | mlr " + " ".join(chain))
+    ctx.dist("regex_sequence_programs", nprog)
+
+
+# ---------------------------------------------------------------- json_stringify / json_parse
+def json_cases(ctx, case, bad):
+    rng = ctx.rng
+    strings = []
+    for c in range(0, 0x80):
+        ch = chr(c)
+        strings += [ch, "a" + ch + "bc", "x" + ch + "-z", ch + ch]
+    strings += ["", "plain", "caf\u00e9", "\u65e5\u672c\u8a9e", "tab\there", "q\"uote\\back", "\U0001f600", "a\u0301", "\\u0041", "</script>", "\u2028\u2029", "{\"k\": [1, 2]}", "0x1F", "1e5", "true"]
+    for _ in range(60 if ctx.tier == "quick" else 2000):
+        strings.append("".join(chr(rng.choice([rng.randrange(0, 0x20), rng.randrange(0x20, 0x7f), 0x22, 0x5c, 0x7f, 0xe9, 0x20ac, 0x1f600])) for _ in range(rng.randint(1, 8))))
+    docs = ['[1, {"a": 2, "b": [true, null, "x\\u0001y"]}, 1.5, "s"]', '{"a": {"b": {"c": "\\ud83d\\ude00"}}, "d": []}', '"\\u00E9\\u000A\\/"', "123", "-0.5e3", "true", '{"k\\u0009": "v\\u0000w"}']
+    recs = [{"i": i, "s": s, "j": json.dumps(s), "doc": docs[i % len(docs)]} for i, s in enumerate(strings)]
+    inp = "".join(json.dumps(r) + "\n" for r in recs)
+    prog = ('$t = json_stringify($s); u = json_parse($t); $rt = is_error(u) ? "error" : (u == $s && strlen(u) == strlen($s)); '
+            '$mt = json_stringify({"k": $s}); $mk = json_stringify({$s: 1}); $ar = json_stringify([$s, $s]); '
+            'v = json_parse($j); $dp = is_error(v) ? "error" : (v == $s); $dd = json_stringify(json_parse($doc)); '
+            '$sc = json_stringify(17) . "|" . json_stringify(1.5) . "|" . json_stringify(true) . "|" . json_stringify("") . "|" . json_stringify({}) . "|" . json_stringify([]); '
+            'unset $s; unset $j; unset $doc;')
+    st, out, err = mlr_run(ctx, ["--ijsonl", "--ojsonl", "put", prog], inp.encode("utf-8"), timeout=180)
+    lines = [l for l in out.decode("utf-8", "replace").split("\n") if l.strip()]
+    if st != 0 or len(lines) != len(recs):
+        bad("json-roundtrip", input="json_stringify/json_parse batch", observed={"status": st, "records": len(lines), "stderr": err.decode("latin1")[-400:]}, expected=len(recs))
+        return
+    for r, line in zip(recs, lines):
+        s = r["s"]
+        ctx.count(("json", s))
+        how = "mlr -n put 'end{print json_stringify(json_parse(\"%s\"))}'" % json.dumps(s).replace("\\", "\\\\").replace('"', '\\"')
+        try:
+            o = json.loads(line)
+        except Exception as e:
+            bad("json-roundtrip", input={"s": json.dumps(s)}, observed={"output line is not JSON": line[:300]}, expected="valid JSON", how=how)
+            continue
+        case(20, 0, 0, s.encode("utf-8"), b"", b"", str(o.get("t", "")).encode("utf-8"), {"fn": "json_stringify", "s": json.dumps(s)})
+        def dec(x):
+            try:
+                return json.loads(x)
+            except Exception as e:
+                return ("undecodable", x)
+        want_doc = json.loads(r["doc"])
+        checks = [("json_stringify(s) read by an RFC 8259 decoder", dec(o.get("t")), s),
+                  ("map value", (dec(o.get("mt")) or {}).get("k") if isinstance(dec(o.get("mt")), dict) else dec(o.get("mt")), s),
+                  ("array elements", dec(o.get("ar")), [s, s]),
+                  ("json_parse(json_stringify(s)) == s", o.get("rt"), True),
+                  ("json_parse of a reference encoder's text == s", o.get("dp"), True),
+                  ("document round trip", dec(o.get("dd")), want_doc),
+                  ("scalars", o.get("sc"), '17|1.5|true|""|{}|[]')]
+        mk = dec(o.get("mk"))
+        checks.append(("map key", list(mk.keys())[0] if isinstance(mk, dict) and mk else mk, s))
+        for label, got, want in checks:
+            if got != want:
+                bad("json-roundtrip", input={"s": json.dumps(s), "what": label, "doc": r["doc"] if label.startswith("document") else None}, observed={"t": o.get("t"), "got": got if not isinstance(got, tuple) else list(got)},
+                    expected=want, how=how)
+                break
+    ctx.dist("json_strings", len(recs))
 
 
 def gen_regex(rng):
